@@ -898,6 +898,12 @@ class _SFTPFileCopier(_SFTPParallelIO[int]):
                 self._progress_handler(self._srcpath, self._dstpath, 0, 0)
                 return
 
+            if self._sparse and self._total_bytes:
+                # Give the destination its full length first, so that a
+                # source ending in a hole isn't truncated (data ranges
+                # copied below overwrite this byte if it holds data)
+                await self._dst.write(b'\0', self._total_bytes - 1)
+
             if self._sparse:
                 ranges = self._src.request_ranges(0, self._total_bytes)
             else:
